@@ -602,8 +602,10 @@ func (d *driver) monitorLin(w *world, cfg progCfg, evs []event) map[uint64]strin
 	pending := map[int64]*linLine{}    // goroutine -> Get/Has line waiting for its result
 	inflight := map[uint64]int{}       // height -> puts between their cache insertion and their lock
 	cachedBy := map[int64]bool{}       // goroutine has published to the cache and not yet locked
-	var lines []linLine
-	lines = append(lines, linLine{"ev": "reset", "c1": cfg.C1, "c2": cfg.C2, "prog": cfg.ID})
+	// lines in the order of the markers (= the order of the height lock); the result of a Get/Has is
+	// filled in when the call returns
+	var lines []*linLine
+	lines = append(lines, &linLine{"ev": "reset", "c1": cfg.C1, "c2": cfg.C2, "prog": cfg.ID})
 	for i := range evs {
 		e := &evs[i]
 		b := w.byH[e.H]
@@ -626,7 +628,7 @@ func (d *driver) monitorLin(w *world, cfg progCfg, evs []event) map[uint64]strin
 				cachedBy[e.G] = false
 			}
 			model[e.H] = apply(model[e.H], c.Path, b.Ref.Empty)
-			lines = append(lines, linLine{"ev": "w", "k": c.Path, "h": b.MH})
+			lines = append(lines, &linLine{"ev": "w", "k": c.Path, "h": b.MH})
 			d.rep.Count("lin_writes", 1)
 		case "get.cached", "get.open", "has":
 			c := cur[e.G]
@@ -636,13 +638,15 @@ func (d *driver) monitorLin(w *world, cfg progCfg, evs []event) map[uint64]strin
 			if e.Ev != "has" && c.Path != "Get" {
 				continue
 			}
-			l := linLine{"ev": strings.ToLower(c.Path), "h": b.MH, "via": e.Ev, "inflight": inflight[e.H] > 0, "state": model[e.H], "seq": e.Seq}
-			pending[e.G] = &l
+			l := &linLine{"ev": strings.ToLower(c.Path), "h": b.MH, "via": e.Ev, "inflight": inflight[e.H] > 0, "state": model[e.H], "seq": e.Seq}
+			pending[e.G] = l
+			lines = append(lines, l)
 		case "ret":
 			if l := pending[e.G]; l != nil {
 				delete(pending, e.G)
-				(*l)["res"] = e.N == 1
-				lines = append(lines, *l)
+				if e.N != -1 { // an error is reported on its own; it is no answer to compare
+					(*l)["res"] = e.N == 1
+				}
 				present := (*l)["state"].(string) != "absent"
 				infl := (*l)["inflight"].(bool)
 				found := e.N == 1
@@ -666,7 +670,16 @@ func (d *driver) monitorLin(w *world, cfg progCfg, evs []event) map[uint64]strin
 		}
 	}
 	// final lines are added by finalState
-	d.writeLin(lines)
+	var out []linLine
+	for _, l := range lines {
+		if ev := (*l)["ev"]; ev == "get" || ev == "has" {
+			if _, ok := (*l)["res"]; !ok {
+				continue // the call did not return inside the recording
+			}
+		}
+		out = append(out, *l)
+	}
+	d.writeLin(out)
 	return model
 }
 
